@@ -44,8 +44,8 @@ ExpFp(mode, e) == IF mode = "none" THEN "none"
 Init ==
   /\ cfg \in [fpC : FpCs, fpS : FpSs, idC : IdCs, idS : IdSs]
   /\ ep = [e \in E |->
-             IF e = "C" THEN InitEp("C", cfg.idC, IF cfg.idC = "certM" THEN "dhMc" ELSE "dhC", "rC", ExpFp(cfg.fpC, "C"))
-                        ELSE InitEp("S", cfg.idS, IF cfg.idS = "certM" THEN "dhMs" ELSE "dhS", "rS", ExpFp(cfg.fpS, "S"))]
+             IF e = "C" THEN InitEp("C", CertOfId(cfg.idC, "C"), KeyOfId(cfg.idC, "C"), IF cfg.idC = "certC" THEN "dhC" ELSE "dhMc", "rC", ExpFp(cfg.fpC, "C"))
+                        ELSE InitEp("S", CertOfId(cfg.idS, "S"), KeyOfId(cfg.idS, "S"), IF cfg.idS = "certS" THEN "dhS" ELSE "dhMs", "rS", ExpFp(cfg.fpS, "S"))]
   /\ outbox = <<>>
   /\ net = [d \in Dir |-> <<>>]
   /\ held = [d \in Dir |-> <<>>]
